@@ -89,6 +89,8 @@ func (r *poolRun) run() {
 			r.opBridgeCallResult(cn)
 		case x < 91:
 			r.opConvert()
+		case x < 93:
+			r.opSecondBatch(cn)
 		default:
 			r.opEndBlock()
 		}
@@ -162,7 +164,44 @@ func (r *poolRun) tokensOn(cn string) []*fix.WToken {
 
 func (r *poolRun) pickToken(cn string) *fix.WToken {
 	ts := r.tokensOn(cn)
+	if r.forceToken != nil {
+		return r.forceToken
+	}
 	return ts[r.rng.IntN(len(ts))]
+}
+
+// opSecondBatch steers the ordinary operations into the situation in which two batches of one token
+// are live at once: a cheap transfer batched after fxcore's clock ran ahead of the last observation,
+// a little external progress observed, then a better-paying transfer batched (a new batch must be at
+// least as profitable as the last one). With a fast fxcore clock the second batch is born with the
+// lower timeout. Everything goes through the same operations and checks as the rest of the history.
+func (r *poolRun) opSecondBatch(cn string) {
+	ts := r.tokensOn(cn)
+	r.forceToken = ts[r.rng.IntN(len(ts))]
+	defer func() { r.forceToken, r.forceFee = nil, 0 }()
+	r.forceFee = int64(1 + r.rng.IntN(5))
+	r.opSend(cn)
+	for k := 1 + r.rng.IntN(4); k > 0 && r.res.Inconclusive == ""; k-- {
+		r.opEndBlock()
+	}
+	r.opRequestBatch(cn)
+	r.bridge(cn).ExtHeight += uint64(r.rng.IntN(3))
+	r.opDeposit(cn)
+	if r.stuck[cn] || r.res.Inconclusive != "" {
+		return
+	}
+	r.forceFee = int64(500 + r.rng.IntN(500))
+	r.opSend(cn)
+	r.opRequestBatch(cn)
+	live := 0
+	for _, bt := range r.bridge(cn).Batches() {
+		if bt.TokenContract == r.forceToken.ExtStr(cn) {
+			live++
+		}
+	}
+	if live >= 2 {
+		r.res.Count("two_live_batches_of_one_token", 1)
+	}
 }
 
 func (r *poolRun) user() chain.Key { return r.users[r.rng.IntN(len(r.users))] }
@@ -272,7 +311,7 @@ func (r *poolRun) opSend(cn string) {
 	t := r.pickToken(cn)
 	u := r.user()
 	dest := r.c.Users[3].Hex()
-	viaEVM := r.rng.IntN(3) == 0 && t.Kind != fix.KindFX
+	viaEVM := r.rng.IntN(3) == 0 && t.Kind != fix.KindFX && r.forceFee == 0
 	before := r.snapshot()
 	var ok bool
 	var errStr string
@@ -308,6 +347,9 @@ func (r *poolRun) opSend(cn string) {
 		}
 		amt = bal.QuoRaw(int64(2 + r.rng.IntN(6)))
 		fee = sdkmath.NewInt(int64(1 + r.rng.IntN(20)))
+		if r.forceFee > 0 {
+			fee = sdkmath.NewInt(r.forceFee)
+		}
 		if r.rng.IntN(12) == 0 {
 			amt = bal.Sub(fee) // whole balance
 		}
@@ -498,6 +540,9 @@ func (r *poolRun) opRequestBatch(cn string) {
 	t := r.pickToken(cn)
 	base := sdkmath.NewInt(int64(r.rng.IntN(15)))
 	min := sdkmath.NewInt(int64(1 + r.rng.IntN(40)))
+	if r.forceToken != nil {
+		base, min = sdkmath.ZeroInt(), sdkmath.OneInt()
+	}
 	before := r.snapshot()
 	poolBefore := map[uint64]bool{}
 	for _, id := range r.poolIDs(cn, "") {
@@ -599,6 +644,7 @@ func (r *poolRun) opBatchExternal(cn string) {
 		}
 	}
 	r.expectDeltas(op, before, want)
+	r.execToken, r.execNonce = bt.TokenContract, bt.BatchNonce
 	r.sync(cn, op, "batch>executed", "batch>pool", "call>refunded", "timeout-path")
 	if r.c05 {
 		for _, x := range r.model[cn] {
